@@ -92,6 +92,9 @@ def build_compact(spec):
             temp[rng.random(m) < nanfrac] = np.nan
             if m > 2:
                 temp[:2] = np.nan  # whole partner sets may be NaN
+        if spec.get("inf") and m >= 2:
+            # infinite values are values: they count and they enter the statistics
+            temp[rng.integers(0, m, max(1, m // 6))] = rng.choice([np.inf, -np.inf])
         d = {
             name + "/time": ((name + "/collocation",),
                              (np.datetime64("2018-01-01", "ns") +
@@ -136,7 +139,7 @@ def gen_spec(rng):
             "pattern": rng.choice(["one-to-many", "many-to-one", "random"]),
             "shuffle": rng.random() < 0.7, "channels": rng.choice([1, 2, 5]),
             "nan": rng.choice([0, 0, 0.2, 0.6]), "chan_first": rng.random() < 0.3,
-            "cube": rng.choice([None, None, [2, 2], [2, 3], [3, 1]]),
+            "cube": rng.choice([None, None, [2, 2], [2, 3], [3, 1]]), "inf": rng.random() < 0.25,
             # incl. group names of which one is a prefix of the other
             "names": rng.choice([["primary", "secondary"], ["MHS", "AVHRR"], ["A", "B"],
                                  ["MHS", "MHS_N18"], ["SAT2", "SAT"]])}
